@@ -7,7 +7,7 @@ import tempfile
 import time
 
 VERIF = os.path.dirname(os.path.dirname(os.path.abspath(__file__)))
-WORK = os.path.join(VERIF, '.work')
+WORK = os.environ.get('VERIF_WORK') or os.path.join(VERIF, '.work')   # (VERIF_WORK / VERIF_REPO: scratch experiments only)
 REPO = os.environ.get('VERIF_REPO', '/repo')
 
 _built = None
@@ -23,6 +23,14 @@ def build():
     if _built:
         return _built
     crate = os.path.join(VERIF, 'replay')
+    if REPO != '/repo':
+        # scratch experiment against a copy of the repository: a copy of the crate whose path dependency points at that copy
+        crate2 = os.path.join(WORK, 'replay-crate')
+        shutil.rmtree(crate2, ignore_errors=True)
+        shutil.copytree(crate, crate2, ignore=shutil.ignore_patterns('Cargo.lock', 'target'))
+        t = open(os.path.join(crate2, 'Cargo.toml')).read().replace('path = "/repo"', 'path = "%s"' % REPO)
+        open(os.path.join(crate2, 'Cargo.toml'), 'w').write(t)
+        crate = crate2
     shutil.copyfile(os.path.join(REPO, 'Cargo.lock'), os.path.join(crate, 'Cargo.lock'))
     env = dict(os.environ, CARGO_NET_OFFLINE='true', CARGO_TARGET_DIR=os.path.join(WORK, 'replay-target'))
     p = subprocess.run(['cargo', 'build', '--offline', '--quiet'], cwd=crate, env=env, capture_output=True, text=True)
